@@ -1,4 +1,5 @@
 import Proofs.Lemmas.FlowStep
+import Proofs.Props.C15
 import Proofs.Facts
 /-!
   C05 — flow control never strands a sender (no lost wake-up, leak or
@@ -197,5 +198,18 @@ example :
     let as := [Act.sLoad, .sCas, .sEmit, .sLoad, .sCas, .sEmit, .sLoad, .sPark, .deliver, .deliver]
     (run 2 (init 4 [6]) as).map (fun s => (s.spc, s.queue, s.win)) = some (SPc.parked, [2, 2], 0) := by
   decide
+
+/-- **Code-level premise of the atomic-action model** (regenerated from the
+    sources on every run): no carrier `Send`, window-update callback, send
+    callback or user callback is invoked while holding a mutex that a receive
+    loop needs — in particular the receiver's window update goes out with the
+    receiver's mutex released, so `deliver` (`accept`) is always enabled, as
+    the model assumes, even when the carrier is full. -/
+theorem C05_no_blocking_call_under_loop_lock :
+    (Proofs.C15.blockingAllowed.filter Proofs.C15.loopLocks.contains) = [] ∧
+    (TunnelModel.Generated.accessTable.filter (fun a => a.how == "call" &&
+        (match Proofs.C15.protOf a with | some (.callUnder _) => true | _ => false) &&
+        a.held.any Proofs.C15.loopLocks.contains)) = [] :=
+  Proofs.C15.C15_blocking_calls_hold_no_loop_lock
 
 end Proofs.C05
